@@ -206,7 +206,7 @@ def check(res, tier, seed):
         dist["closurestress"] += len(srecs)
         # what the peer ANSWERS is peer input too: responses that cannot be decoded into the declared result type,
         # reads that fail with every kind of error, frames for functions without results (black-box family linkend)
-        lrecs, lrc, lout = C.run_job(binary, wd, "linkend", dict(family="sys", seed=seed, n=(12 if tier == "quick" else 120), cases=["linkend"]), timeout=600)
+        lrecs, lrc, lout = C.run_job(binary, wd, "linkend", dict(family="sys", seed=seed, n=(18 if tier == "quick" else 180), cases=["linkend"]), timeout=600)
         if lrc != 0:
             monitor_hits += 1
             line = next((l for l in lout.splitlines() if l.startswith("panic:") or "fatal error" in l), (lout.strip().splitlines() or ["?"])[-1])
@@ -214,6 +214,10 @@ def check(res, tier, seed):
                           dict(kind="sys", family="linkend", output=lout[-3000:]))
         total += len(lrecs)
         dist["linkend"] += len(lrecs)
+        # what a peer makes panrpc run must not be able to wedge the registry for everybody else: the critical sections
+        # of the table locks are closed pieces of code (regenerated from the sources, go/ast; Regions.v)
+        from . import regions
+        regions.obligation(res, wd, monitor_hits)
     if pid == "C07":
         # "... with the calling link's identity in its context": hubs with several links, relinking after a failure
         from . import sys_props
